@@ -111,7 +111,12 @@ def run_table(c):
         return TabularFields(Table(num_rows=c[side + "_rows"]), {n: np_col(vals, dt(side, n)) for n, vals in c[side]})
     a, b = mk("src"), mk("ref")
     d = a.diff_to(b)
-    return {"rows": d.domain.number_of_rows, "fields": {f.name: impl_values(f.values) for f in d}}
+    out = {"rows": d.domain.number_of_rows, "fields": {f.name: impl_values(f.values) for f in d}}
+    d2 = a.diff_to(b)           # the same objects once more: same difference, and the first result is left alone
+    again = {f.name: impl_values(f.values) for f in d2}
+    if again != out["fields"] or {f.name: impl_values(f.values) for f in d} != out["fields"]:
+        out["repeat_differs"] = True
+    return out
 
 
 def oracle_table(c):
@@ -176,7 +181,11 @@ def run_mesh(c):
         return {"raised": str(e)}
     out = {f.name: impl_values(f.values) for f in d}
     same_mesh = bool(d.domain.equals(b.domain))
-    return {"fields": out, "domain_is_reference": same_mesh}
+    res = {"fields": out, "domain_is_reference": same_mesh}
+    again = {f.name: impl_values(f.values) for f in a.diff_to(b)}
+    if again != out or {f.name: impl_values(f.values) for f in d} != out:
+        res["repeat_differs"] = True
+    return res
 
 
 def oracle_mesh(c):
@@ -270,6 +279,60 @@ def cli_diff_case(ctx, rng, workdir, idx):
         shutil.rmtree(d_, ignore_errors=True)
 
 
+def cli_diff_sequence_case(ctx, rng, workdir, idx):
+    """--diff on a .pvd pair: every step gets its own difference file, also when only a later step's reference is stored in
+    another order than the source (step 0 identical ordering)"""
+    M = None
+    while M is None or G.has_coincident_points(M) or any(len({len(r) for r in rows}) > 1 for _, rows in M["blocks"]):
+        M = G.gen_mesh(rng, max_cells=3)
+    n = len(M["pts"])
+    nsteps = rng.randint(2, 3)
+    d_ = os.path.join(workdir, f"diffseq{idx}")
+    os.makedirs(d_)
+    try:
+        deltas = []
+        for side in ("res", "ref"):
+            steps = []
+            for k in range(nsteps):
+                X = G.copy_mesh(M)
+                X["pf"]["u"] = [Fr(i + 10 * k, 4) for i in range(n)]
+                delta = Fr(0)
+                if side == "ref":
+                    if k >= 1:
+                        X = G.relabel(rng, X, blocks=False)[0]          # later steps: the reference is stored in another order
+                    delta = Fr(k + 1, 2)
+                    X["pf"]["u"] = [v + delta for v in X["pf"]["u"]]
+                    deltas.append(delta)
+                pts = [[float(x) for x in G.padded(p)] for p in X["pts"]]
+                cells = [(G.VTK_ID[t], r) for t, rows in X["blocks"] for r in rows]
+                fn = f"{side}_{k}.vtu"
+                V.write_vtu(os.path.join(d_, fn), pts, cells, [("u", "Float64", 1, [float(v) for v in X["pf"]["u"]])], [], V.Cfg("binary"))
+                steps.append(fn)
+            V.write_pvd(os.path.join(d_, f"{side}.pvd"), steps)
+        with warnings.catch_warnings():
+            warnings.simplefilter("ignore")
+            rc, log, exc = run_cli(["file", os.path.join(d_, "res.pvd"), os.path.join(d_, "ref.pvd"), "--diff", "--verbosity", "0"])
+        produced = sorted(f for f in os.listdir(d_) if f.startswith("diff_"))
+        canon = {"cli_diff_sequence": {"steps": nsteps, "points": n, "deltas": [str(x) for x in deltas]}}
+        ctx.case({"cli_diff_sequence": idx, "steps": nsteps, "n": n}, True, sample={"cli_diff_sequence": canon, "files": produced, "exit": rc})
+        ctx.count("cli --diff on a sequence")
+        if exc or len(produced) != nsteps:
+            ctx.violation("E4", f"--diff on a sequence of {nsteps} steps did not write one difference file per step "
+                                f"(escaped={exc}, files={produced})", canon)
+            return
+        for fn in produced:
+            dec = decode_vtu_inline(os.path.join(d_, fn))
+            vals, _ = dec["point"]["u"]
+            got = sorted({Fr(float(v)) for v in vals})
+            if len(got) != 1 or got[0] not in deltas:
+                ctx.violation("E4", "a difference file of the sequence does not hold reference - source (a constant per step here)",
+                              canon, file=fn, values=[str(v) for v in got][:6])
+                return
+        ctx.traces_validated += 1
+    finally:
+        shutil.rmtree(d_, ignore_errors=True)
+
+
 def run(ctx):
     ctx.prove()
     q = ctx.tier == "quick"
@@ -319,6 +382,9 @@ def run(ctx):
         if "raised" in im:
             ctx.violation("E4", f"diff_to raised on comparable data: {im['raised']}", canon)
             continue
+        if im.get("repeat_differs"):
+            ctx.violation("E4", "computing the difference of the same two objects a second time gives other values (or changes "
+                                "the first result)", canon, impl=lib.json.loads(lib.json.dumps(im, default=str)))
         if im["fields"] != orc["fields"] or (c["kind"] == "table" and im["rows"] != orc["rows"]) or \
                 (c["kind"] == "mesh" and not im["domain_is_reference"]):
             ctx.violation("E4", "diff_to is not reference - source on matching entities / NaN for one-sided fields / on the common domain",
@@ -328,6 +394,8 @@ def run(ctx):
         ctx.traces_validated += 1
     for i in range(60 if q else 1500):
         cli_diff_case(ctx, rng, str(ctx.workdir), i)
+    for i in range(12 if q else 300):
+        cli_diff_sequence_case(ctx, rng, str(ctx.workdir), i)
     ctx.rule = ("tabular pairs (0-4 rows per side, overlapping column sets) and mesh pairs (same mesh or a moved point; overlapping "
                 "point and cell field sets on 1-3 cell types) with arbitrary dyadic values of the numeric types float64/float32/"
                 "int64/int32/int8/uint8/uint16/uint64 (the two sides of a field may differ in type; integer extremes included); CLI --diff on relabeled meshes with one "
